@@ -24,7 +24,7 @@ LEVEL = "exploration"
 CONT = ["x", "{{t|a}}", "[[l|m]]", "'''b'''", "''i''", '<span class="c">s</span>', "a!b", "x y", "{{lc:X}}", "{{#if:x|y}}", "x=1", "{{t|k=v}}", "{{#if:x|a!!b}}", "{{{p|c!!d}}}",
         "[[l]] | m", "<b>n</b> | o"]
 ATTRS = [{}, {"class": "c"}, {"style": "s-1", "id": "i2"}, {"class": "a b"}, {"Title": "T", "data-ID": "x9"},   # names are kept as written
-         {"data_x": "1", "a.b": "v"}]                                                 # every URL-safe name character
+         {"data_x": "1.5_z~", "a.b": "v"}]                                                 # every URL-safe name character
 HTML_SKIP = {"pre", "nowiki", "section", "noinclude", "includeonly", "onlyinclude", "math", "chem", "ce", "hiero", "score",
              "syntaxhighlight", "source", "templatestyles", "timeline", "gallery", "imagemap", "inputbox", "poem"}
 URLS = ["http://x.y/a.", "https://x.y/?q=1&r=2,", "//x.y/p!", "ftp://x.y/a?", "http://x.y/a_(b)", "mailto:a@b.org", "http://x.y/a;b"]
